@@ -928,3 +928,65 @@ theorem mutex_linearizable {σ Op Res : Type} (step : σ → Op → σ × Res) (
         exact ⟨this.1, by rw [this.2]⟩
 
 end XC.C43.Pipe
+
+namespace XC.C43
+
+/-! ## 7. the remaining calls through the wire; non-vacuity examples -/
+
+theorem removeAll_res (r : KR) : r.removeAll.2 = .ok ∨ r.removeAll.2 = .err := by
+  simp only [KR.removeAll]; split <;> simp
+
+/-- RemoveAll through the wire is exactly `keyring.RemoveAll` -/
+theorem wire_removeAll (ids : List Ident) (r : KR) (now : Int) :
+    wireStep ids r now .removeAll = r.removeAll := by
+  simp only [wireStep, COp.request, encRemoveAll, processRequest, COp.decode,
+    show ((19 : UInt8) == 1) = false by decide, show ((19 : UInt8) == 9) = false by decide,
+    show ((19 : UInt8) == 18) = false by decide, beq_self_eq_true, if_true, Bool.false_eq_true, if_false]
+  rw [mapRes_decSimple _ (removeAll_res r)]
+
+/-- Extension through the wire: the keyring supports none, the client reports ErrExtensionUnsupported
+    (for every extension type shorter than 2^32 bytes and any contents), state unchanged -/
+theorem wire_extension (ids : List Ident) (r : KR) (now : Int) (typ contents : Bytes) (h : typ.length < 2 ^ 32) :
+    wireStep ids r now (.extension typ contents) = r.step now (.extension typ contents) := by
+  have hg := getStr_putStr typ contents h
+  simp only [wireStep, COp.request, encExtension, processRequest, hg, COp.decode, KR.step,
+    show ((27 : UInt8) == 1) = false by decide, show ((27 : UInt8) == 9) = false by decide,
+    show ((27 : UInt8) == 18) = false by decide, show ((27 : UInt8) == 19) = false by decide,
+    show ((27 : UInt8) == 22) = false by decide, show ((27 : UInt8) == 23) = false by decide,
+    show ((27 : UInt8) == 13) = false by decide, show ((27 : UInt8) == 11) = false by decide,
+    show ((27 : UInt8) == 17) = false by decide, show ((27 : UInt8) == 25) = false by decide,
+    Bool.or_self, beq_self_eq_true, if_true, Bool.false_eq_true, if_false, decExtension]
+
+/-- `client.Signers` is `client.List`: the listed keys' blobs (a locked agent gives none, where the direct
+    `keyring.Signers` returns an error — the one place where the two paths differ by design) -/
+theorem wire_signers (ids : List Ident) (r : KR) (now : Int)
+    (hk : ∀ k ∈ r.keys, WellFormedBlob k.blob ∧ k.comment.length < 2 ^ 32)
+    (hn : r.keys.length ≤ maxAgentBytes / 8) :
+    wireStep ids r now .signers =
+      ((r.list now).1, match (r.list now).2 with
+        | .keys ks => .signers (ks.map (·.1))
+        | res => res) := by
+  have h := wire_list ids r now hk hn
+  simp only [wireStep, COp.request, COp.decode] at h ⊢
+  have h1 := congrArg Prod.fst h
+  have h2 := congrArg Prod.snd h
+  simp only at h1 h2
+  rw [Prod.ext_iff]
+  refine ⟨h1, ?_⟩
+  simp only; rw [h2]
+  cases (r.list now).2 <;> rfl
+
+-- non-vacuity
+example : WellFormedBlob ([0, 0, 0, 1, 65] : Bytes) := ⟨by decide, [65], [], by decide⟩
+example : Rel ({} : KR) ({} : Abs) := rel_init
+example : NodupBlobs (({} : KR).run [(0, .add ⟨[1], true, [], 0, false, 0⟩), (1, .add ⟨[1], true, [9], 5, false, 0⟩),
+    (2, .add ⟨[2], true, [], 0, false, 0⟩)]).1.keys := reachable_nodup _
+example : ∀ f ∈ ([⟨1, [11]⟩, ⟨0, []⟩] : List Frame), 0 < f.len → f.body ≠ [] := by
+  intro f hf; simp at hf; rcases hf with rfl | rfl <;> simp
+example : (({ keys := [], locked := true, pass := [1] } : KR).list 0).2 = .keys [] :=
+  (locked_lists_nothing_signs_nothing _ 0 rfl).1
+example (b : Bytes) : sigFormat b 0 = some (underlyingFormat (blobFormat b)) := by simp [sigFormat]
+example : parseConstraints 7 (encConstraints 5 true []) 0 false 0 = some (5, true, 0) :=
+  constraints_roundtrip 5 true [] (by decide) (by simp)
+
+end XC.C43
